@@ -610,18 +610,20 @@ def run_cases(chk, cases, name="C03"):
     for c in cases:
         try:
             impls.append(run_impl(c))
-        except Exception as e:  # an exception of the implementation on a well-formed op list is itself a result
-            impls.append({"refused": None, "crash": f"{type(e).__name__}: {e}", "obs": []})
+        except Exception as e:  # an exception of the implementation on a well-formed op list is itself a concrete failing input
+            import traceback
+
+            impls.append({"refused": None, "crash": f"{type(e).__name__}: {e}", "traceback": traceback.format_exc()[-2500:], "obs": []})
     vals = common.coq_eval_many(name, HEADER, [model_expr(c) for c in cases], shard=50, procs=4)
     results = []
     for c, im, mv in zip(cases, impls, vals):
         if im.get("crash"):
-            results.append(([("oracle-crash", im["crash"])], []))
+            results.append(([("oracle-implementation-raised", "add() / sample() / size() / reset() raised on a legal op list: " + im["crash"])], []))
             continue
         try:
             orc = oracle(c, im)
         except Exception as e:
-            orc = [("oracle-crash", f"{type(e).__name__}: {e}")]
+            orc = [("oracle-unexpected-value", f"the recorded samples contain a value the oracle cannot interpret: {type(e).__name__}: {e}")]
         results.append((orc, compare_model(c, im, mv)))
     return impls, results
 
@@ -759,10 +761,21 @@ def check_rollout(case, impl, mv):
 def rollout_campaign(chk, n_cases):
     cases = [gen_rollout_case(chk.rng, i) for i in range(n_cases)]
     cases.insert(0, {"id": -1, "dict": False, "T": 3, "n": 2, "ops": [["add"], ["get", None], ["add"], ["add"], ["add"], ["get", 4], ["get", None], ["get", 1], ["reset"], ["get", None], ["add"], ["add"], ["add"], ["get", 2], ["get", 2]]})
-    impls = [run_rollout(c) for c in cases]
+    impls = []
+    for c in cases:
+        try:
+            impls.append(run_rollout(c))
+        except Exception as e:
+            import traceback
+
+            impls.append(None)
+            chk.violation("oracle-implementation-raised", f"RolloutBuffer add() / get() / reset() raised on a legal op list: {type(e).__name__}: {e}",
+                          {"rollout_case": c, "traceback": traceback.format_exc()[-2500:]}, found_input=True)
     vals = common.coq_eval_many("C03_roll", RHEADER, [rollout_expr(c) for c in cases], shard=150, procs=4)
     new, passes = 0, 0
     for c, im, mv in zip(cases, impls, vals):
+        if im is None:
+            continue
         orc, mod = check_rollout(c, im, mv)
         passes += sum(1 for r in im if "pass" in r)
         if orc and new < 2:
